@@ -98,9 +98,20 @@ inline void add_sample(const std::string& s)
 }
 
 inline volatile sig_atomic_t in_query = 0;
+inline volatile sig_atomic_t alarms_in_query = 0;
+inline void                  abandon_stuck_query();
+inline void                  arm_timer(double secs);
 inline void                  on_alarm(int)
 {
-    if (in_query && C) Z3_interrupt(*C);
+    if (!in_query || !C) return;
+    // first expiry: cooperative interrupt + grace period; second expiry: the solver does not react (bit-blasting of a large
+    // floating-point term, a long polynomial step): the path is given up and counted as truncated, never as explored
+    if (alarms_in_query++ == 0)
+    {
+        Z3_interrupt(*C);
+        arm_timer(5.0);
+    }
+    else abandon_stuck_query();
 }
 struct QR
 {
@@ -139,7 +150,8 @@ inline QR query(const z3::expr* extra1, const z3::expr* extra2 = nullptr)
         for (auto& a : *pc) q.add(a);
         if (extra1) q.add(*extra1);
         if (extra2) q.add(*extra2);
-        in_query = 1;
+        in_query        = 1;
+        alarms_in_query = 0;
         arm_timer(budget);
         try
         {
@@ -608,6 +620,36 @@ void write_summary();
     release_slot();
     wait_children();
     if (is_root)
+    {
+        write_summary();
+        _exit(S->violations.load() ? 1 : 0);
+    }
+    _exit(0);
+}
+
+inline const char* const STUCK_LABEL = "truncated: solver ignored the interrupt (path given up)";
+inline void              abandon_stuck_query()
+{
+    if (S)
+    {
+        S->truncated++;
+        long n = S->nlabels.load();
+        for (long i = 0; i < n; ++i)
+            if (std::strcmp(S->labels[i].name, STUCK_LABEL) == 0)
+            {
+                S->labels[i].checked++;
+                break;
+            }
+        if (have_slot)
+        {
+            have_slot = false;
+            S->live--;
+            sem_post(&S->slots);
+        }
+    }
+    int st;
+    while (wait(&st) > 0 || errno == EINTR) {}
+    if (is_root && S)
     {
         write_summary();
         _exit(S->violations.load() ? 1 : 0);
